@@ -416,3 +416,50 @@ Proof. exact @c06_no_resend_acked_g_trace. Qed.
 Print Assumptions c06_delivered_stays_delivered.
 Print Assumptions c06_no_resend_acked_guarded_step.
 Print Assumptions c06_no_resend_acked_g_every_trace.
+
+(* ---- c06_fast_retx_ok: the poll in which Recovering is entered (no RTO mode, transport writable)
+   retransmits the first undelivered segment when it lies within the recovery point.  Proved for the polls the
+   transport cannot answer with EMSGSIZE, under the guard of c06_fast_retx_ok_t (SACK depth not negative;
+   segments before the poll + index of the first undelivered one < 1024: the distance the sequence-number
+   comparison with high_rxt has to bridge).  HRI L = a Recovering phase entered while the poll processes its
+   messages has retransmitted nothing and its high_rxt is at most L segments below the left edge. *)
+From Utp Require Import Conn.C06_StepLemmas3.
+
+Theorem c06_fast_retransmit_in_send_tx_queue : forall (CC : Type) (cci : cc_iface CC) (s s' : vsock CC) (u : unit)
+    (rc : recovering) (f0 : for_sending) (rest : list for_sending),
+  send_tx_queue cci s = SOk s' u -> ti s ->
+  v_transport_pending s = false -> v_transport_pending s' = false -> v_rto_retransmissions s' = 0 ->
+  rv_phase (v_recovery s) = Recovering rc -> rc_total_retx rc = 0 ->
+  rec_items s rc = f0 :: rest ->
+  (exists more, v_out s' = more ++ data_pkt s (outgoing_header s) f0 :: v_out s) /\
+  (forall rc', rv_phase (v_recovery s') = Recovering rc' -> rc_recovery_point rc' = rc_recovery_point rc).
+Proof. exact @stq_fast. Qed.
+
+Theorem c06_recovery_entered_while_receiving : forall (CC : Type) (cci : cc_iface CC) (L : Z)
+    (s1 s2 : vsock CC) (h : chdr) (res : on_ack_result),
+  pim_ack cci s1 h = Some (s2, res) -> HRI L s1 -> HRI L s2.
+Proof. exact @pim_ack_HRI. Qed.
+
+Theorem c06_fast_retx_poll_strict : forall (CC : Type) (cci : cc_iface CC) (L : Z) (s s' : vsock CC),
+  LB 0 s -> ti s -> EF s -> is_recovering (v_recovery s) = false ->
+  len_z (ss_segs (v_segs s)) <= L ->
+  poll cci s = (s', PollPending) -> FC L s'.
+Proof. exact @poll_fast_strict. Qed.
+
+Theorem c06_fast_retx_ok_guarded_step : forall (CC : Type) (cci : cc_iface CC) (cfg : vconfig)
+    (s : vsock CC) (sc : list send_outcome),
+  LB 0 s -> ti s -> v_emsg_limit s = None -> script_legit sc = true ->
+  c06_fast_retx_ok_t cfg (VSock_Lemmas.fstep_of cci s (VoPoll sc)) = true.
+Proof. exact @c06_fast_retx_ok_t_poll. Qed.
+
+Theorem c06_fast_retx_ok_g_every_trace : forall (CC : Type) (cci : cc_iface CC) (cfg : vconfig)
+    (mk : Z -> Z -> CC) (c : vconfig) (s0 : vsock CC) (ops : list vop),
+  vconfig_ok c = true -> vsock_new cci mk c = Some s0 ->
+  c06_fast_retx_ok_g cfg (ftrace cci s0 ops) = true.
+Proof. exact @c06_fast_retx_ok_g_trace. Qed.
+
+Print Assumptions c06_fast_retransmit_in_send_tx_queue.
+Print Assumptions c06_recovery_entered_while_receiving.
+Print Assumptions c06_fast_retx_poll_strict.
+Print Assumptions c06_fast_retx_ok_guarded_step.
+Print Assumptions c06_fast_retx_ok_g_every_trace.
